@@ -85,6 +85,11 @@ def splitSign : Bytes → Bool × Bytes
   | 45 :: r => (true, r)        -- '-'
   | r => (false, r)
 
+/-- `2^(bits-1)`: the magnitude limit of a signed `bits`-bit integer. The two sizes the code
+    uses are given as literals so that no proof ever has to evaluate a power. -/
+def limOf (bits : Nat) : Int :=
+  if bits = 32 then two31 else if bits = 64 then two63 else (2 : Int) ^ (bits - 1)
+
 /-- `strconv.ParseInt(s, 10, bits)`: optional sign, then one or more ASCII
     digits; value must fit the signed range, otherwise an error (`none`). -/
 def parseInt (bits : Nat) (s : Bytes) : Option Int :=
@@ -92,7 +97,7 @@ def parseInt (bits : Nat) (s : Bytes) : Option Int :=
   let body := (splitSign s).2
   if !allDigits body then none else
   let v : Int := digitsVal body
-  let lim : Int := (2 : Int) ^ (bits - 1)
+  let lim : Int := limOf bits
   if neg then (if v ≤ lim then some (-v) else none)
   else (if v < lim then some v else none)
 
